@@ -217,6 +217,42 @@ func parseTriples(ws []string) []*wal.Entry {
 	return es
 }
 
+// stepBasic: new / append / batch / rotate (shared with component walfault)
+func (x *walRun) stepBasic(ws []string) string {
+	switch ws[0] {
+	case "new":
+		if x.w != nil {
+			x.w.Close()
+		}
+		x.open()
+		return "ok"
+	case "append":
+		op, _ := strconv.Atoi(ws[1])
+		seq, err := x.w.Append(uint8(op), unhx(ws[2]), unhx(ws[3]))
+		if err != nil {
+			return "err " + walErrClass(err)
+		}
+		return fmt.Sprintf("ok %d", seq)
+	case "batch":
+		seq, err := x.w.AppendBatch(parseTriples(ws[2:]))
+		if err != nil {
+			return "err " + walErrClass(err)
+		}
+		return fmt.Sprintf("ok %d", seq)
+	case "rotate":
+		next := x.w.GetNextSequence()
+		x.w.Close()
+		nw, err := wal.NewWAL(x.cfg, x.dir)
+		if err != nil {
+			panic(err)
+		}
+		nw.UpdateNextSequence(next)
+		x.w = nw
+		return "ok"
+	}
+	return "bad-op"
+}
+
 func runWal(r *runner) {
 	x := &walRun{r: r}
 	for {
